@@ -133,7 +133,9 @@ pub struct VerifReaderState {
 }
 
 fn copy_chunk_state(chunk_state: &crate::ChunkState) -> VerifChunkState {
-    // Exhaustive destructuring: a new field breaks this build.
+    // Exhaustive destructuring: a new field breaks this build (unless the harness asks for the
+    // lenient variant, which ignores fields it does not know).
+    #[cfg(not(blake3_team_blake3_verif_lenient))]
     let crate::ChunkState {
         cv,
         chunk_counter,
@@ -142,6 +144,17 @@ fn copy_chunk_state(chunk_state: &crate::ChunkState) -> VerifChunkState {
         blocks_compressed,
         flags,
         platform,
+    } = chunk_state;
+    #[cfg(blake3_team_blake3_verif_lenient)]
+    let crate::ChunkState {
+        cv,
+        chunk_counter,
+        buf,
+        buf_len,
+        blocks_compressed,
+        flags,
+        platform,
+        ..
     } = chunk_state;
     VerifChunkState {
         cv: *cv,
@@ -161,12 +174,21 @@ impl Hasher {
     }
 
     pub fn verif_state(&self) -> VerifHasherState {
-        // Exhaustive destructuring: a new field breaks this build.
+        // Exhaustive destructuring: a new field breaks this build (see copy_chunk_state).
+        #[cfg(not(blake3_team_blake3_verif_lenient))]
         let Hasher {
             key,
             chunk_state,
             initial_chunk_counter,
             cv_stack,
+        } = self;
+        #[cfg(blake3_team_blake3_verif_lenient)]
+        let Hasher {
+            key,
+            chunk_state,
+            initial_chunk_counter,
+            cv_stack,
+            ..
         } = self;
         let mut stack = [[0u8; 32]; crate::MAX_DEPTH + 1];
         for (slot, cv) in stack.iter_mut().zip(cv_stack.iter()) {
@@ -184,11 +206,19 @@ impl Hasher {
 
 impl OutputReader {
     pub fn verif_state(&self) -> VerifReaderState {
-        // Exhaustive destructuring: a new field breaks this build.
+        // Exhaustive destructuring: a new field breaks this build (see copy_chunk_state).
+        #[cfg(not(blake3_team_blake3_verif_lenient))]
         let OutputReader {
             inner,
             position_within_block,
         } = self;
+        #[cfg(blake3_team_blake3_verif_lenient)]
+        let OutputReader {
+            inner,
+            position_within_block,
+            ..
+        } = self;
+        #[cfg(not(blake3_team_blake3_verif_lenient))]
         let crate::Output {
             input_chaining_value,
             block,
@@ -196,6 +226,16 @@ impl OutputReader {
             counter,
             flags,
             platform,
+        } = inner;
+        #[cfg(blake3_team_blake3_verif_lenient)]
+        let crate::Output {
+            input_chaining_value,
+            block,
+            block_len,
+            counter,
+            flags,
+            platform,
+            ..
         } = inner;
         VerifReaderState {
             input_chaining_value: *input_chaining_value,
